@@ -240,6 +240,12 @@ def cases(tier, shard, nshards):
             for i in probes(n):
                 yield Case(pre + "s[%s]" % lit_int(i), dict(base, op="index", i=i), opts=opts)
                 yield Case("%s[%s]" % (ssrc, lit_int(i)), dict(base, op="index", i=i), opts=opts)
+                if abs(i) <= n + 1:
+                    # the same index / bound / count held in big representation (a small value that went through a big intermediate)
+                    bi = "((2^70+%d)-2^70)" % i if i >= 0 else "((2^70-%d)-2^70)" % (-i)
+                    yield Case(pre + "s[%s]" % bi, dict(base, op="index", i=i, rep="big"), opts=opts)
+                    yield Case(pre + "s[%s:]" % bi, dict(base, op="slice", a=i, b=None, rep="big"), opts=opts)
+                    yield Case(pre + "s[:%s]" % bi, dict(base, op="slice", a=None, b=i, rep="big"), opts=opts)
             pr = [None] + probes(n)
             for a in pr:
                 for b in pr:
